@@ -9,8 +9,12 @@ theorem ac_generate_ac (sk d : Bytes) (pt : Option PaddingType) (l : Option Nat)
   unfold Gen.ac.generate_ac generateAc
   by_cases h : sk.length = 16
   · simp only [h, ne_eq, not_true_eq_false, if_false, mac_mac3, bind, Except.bind, pure, Except.pure]
-    cases hp : pt.getD .emv <;> simp [hp, throw, throwThe, MonadExceptOf.throw] <;>
-      (cases mac3 (sk.take 8) (lastN 8 sk) d _ l <;> rfl)
+    have hl : lastN 8 sk = sk.drop 8 := by simp [lastN, h]
+    cases hp : pt.getD .emv <;> simp [hp, hl, throw, throwThe, MonadExceptOf.throw] <;>
+      (first
+        | (cases mac3 (sk.take 8) (lastN 8 sk) d _ l <;> rfl)
+        | (cases mac3 (sk.take 8) (sk.drop 8) d _ l <;> rfl)
+        | (simp only [slice_zero, slice_to_end sk 8 16 (by omega)]; cases mac3 (sk.take 8) (sk.drop 8) d _ l <;> rfl))
   · simp [h, bind, Except.bind, throw, throwThe, MonadExceptOf.throw]
 
 /-- **C01 about the translated source**: the application cryptogram computed by `ac.generate_ac` as it stands in
